@@ -16,7 +16,11 @@ boo_2d, q8_tetrahedral, S2.particle_s2, HessianMatrix.diagonalize_hessian, Dynam
 LogDynamics.relaxation, gyration_tensor, participation_ratio; the two results must stand in the
 relation the specification states.  The Python applier of generator parameters (needed for the big
 inputs below) is validated on every small case: applied to the base configuration it must
-reproduce TLC's transformed configuration and action exactly, in integers.
+reproduce TLC's transformed configuration and action exactly, in integers.  The specification also decides the
+degrees of the 3-D bond-order observables (Symmetry!BooDegrees: 4, 6; every degree 1..13 where the word moves bond
+directions) and the evaluation schedule (Symmetry!Schedule): base and transformed configuration are analysed in one
+process, into one output directory with fixed file names; axis words on periodic cells run base, transformed, base
+again and the transformed result must agree with both (module-level state of the library is part of the process).
 
 Direction A (trajectories): the repository's own sample trajectories are read with the real dump
 reader and sub-sampled (box unchanged); TLC (mode "traj") decides which generic words apply to
